@@ -28,21 +28,11 @@ def bi(off, name, args):
     return f"(bi _ {off} {s(name)}" + "".join(" " + a for a in args) + ")"
 
 
-def is_nontame_arr(args):
-    """an argument array (or the variadic argument list) on which the value order is not a total preorder: a NaN, or a Number next to a numeric String"""
-    txt = ' '.join(args)
-    has_nan = '(n 9221120237041090560)' in txt
-    has_num = '(n ' in txt
-    numstr = False
-    for m in re.finditer(r'\(s((?: \d+)*)\)', txt):
-        t = ''.join(chr(int(c)) for c in m.group(1).split())
-        try:
-            f = float(t.strip() if t == t.strip() else 'x')
-            if f == f:
-                numstr = True
-        except ValueError:
-            pass
-    return has_nan or (has_num and numstr)
+def is_nontame_arr(args, smart=True):
+    """the documented value order (written independently in vlib/reford.py) does NOT arrange these argument values consistently - only then can the known
+    C13 finding (NaN compares Equal to everything; Number vs numeric String vs other String is cyclic) explain a failure"""
+    from vlib import reford
+    return reford.inconsistency_class(args, smart) is not None
 
 
 def gen_pool_calls(R, names, off, n_random, pool=POOL, pairs=True):
@@ -64,7 +54,7 @@ def gen_pool_calls(R, names, off, n_random, pool=POOL, pairs=True):
 C15_NAMES = ["length", "at", "copy", "insert", "find", "count", "contains", "replace", "remove", "reverse", "unique", "all", "any", "split", "split_csv", "trim", "trim_left", "trim_right",
              "lowercase", "uppercase", "same_text"]
 C15_STRS = ["", "a", "ab", "abc", "abcabc", "aaa", "aaaa", "äb", "bä", "äbä", "日本語", "😀a", "a😀b", "é", "ée", "  x y  ", "\t\n x ", " x　", "a;b;\"c;d\";e", "a,b,,c", "\"", "x;\"y", "AbC",
-            "ß", "İ", "ǅ", "ὈΔΥΣΣΕΎΣ", "Σ", "aΣ", "ΑΣ ", "ﬁ", "ŉ"]
+            "ß", "İ", "ǅ", "ὈΔΥΣΣΕΎΣ", "Σ", "aΣ", "ΑΣ ", "ﬁ", "ŉ", "ÄRGER", "École", "привет", "ÑandÚ", "Straße", "ΣΊΣΥΦΟΣ"]
 C15_ARRS = [arr(), arr(num(1.0)), arr(num(1.0), s("1"), b(True)), arr(num(3.0), num(1.0), num(2.0), num(1.0)), arr(s("b"), s("a"), s("b")), arr(arr(num(1.0)), arr(), arr(num(1.0))),
             arr(b(True), b(True), b(False)), arr(s("x"), arr(s("x")), num(0.0), num(-0.0))]
 
@@ -264,6 +254,13 @@ def gen_c13(tier, R):
         for c in P:
             out.append(f"(cmp _ {a} {c})")
             out.append(bi(1, "compare", [a, c]))
+    for x, y in [(s("5"), num(3.0)), (num(3.0), s("5")), (s("10"), num(9.0)), (s("-1"), num(0.0)), (s("2"), num(2.0)), (s("1e1"), num(9.5)), (b(True), s("0")), (s("a"), num(1.0))]:
+        for name in ("sort", "max", "min"):
+            out.append(bi(1, name, [arr(x, y)]))
+            out.append(bi(1, name, [arr(y, x)]))
+        out.append(f"(sortlaws _ {arr(x, y)})")
+        out.append(f"(sortlaws _ {arr(y, x)})")
+        out.append(f"(sortlaws _ {arr(y, x, y, x)})")
     trip = [(a, c, d) for a in P for c in P for d in P]
     if tier == 'quick':
         trip = R.sample(trip, 12000)
@@ -291,6 +288,10 @@ def gen_c13(tier, R):
             els = [R.choice(tame_nums + [b(True), b(False), arr(num(1.0)), arr(num(1.0), num(0.0)), arr()]) for _ in range(n)]
         else:
             els = [rnd_val(2) for _ in range(n)]
+        if k >= 0.85 and R.random() < 0.5:
+            # numbers next to numeric strings where the documented order IS consistent: single-digit strings order like their numbers; Booleans lowest, arrays highest
+            mix = tame_nums[:11] + [num(float(i)) for i in range(6, 12)] + [s(str(d)) for d in range(10)] + [b(True), b(False), arr(), arr(s("5"), num(3.0))]
+            els = [R.choice(mix) for _ in range(n)]
         a = arr(*els)
         out.append(f"(sortlaws _ {a})")
         out.append(bi(1, "sort", [a]))
